@@ -74,7 +74,7 @@ theorem range_down_fold : ∀ (fuel k : Nat) (acc : Int), k < fuel →
 
 theorem factorial_spec (n : Nat) (hn : (n : Int) ≤ 9223372036854775807) :
     Lib.factorial n 1 = .ok ((n.factorial : Nat) : Int) := by
-  unfold Lib.factorial Lib.range
+  unfold Lib.factorial Lib.range Lib.rangeGuard
   have h1 : fits (n : Int) = true := by rw [fits_iff]; omega
   have h2 : fits 0 = true := by decide
   have h3 : fits (-1) = true := by decide
@@ -155,7 +155,7 @@ theorem self_lt_succ_pow (a : Int) (b : Nat) (ha : 0 ≤ a) (hb : 1 ≤ b) : a <
 /-- `floor_root(a, b)` for `a ≥ 0` (below the `range` limit) and `b ≥ 1` is the integer `b`-th root rounded down -/
 theorem floorRoot_spec (a b : Int) (ha : 0 ≤ a) (ha' : a + 1 ≤ 9223372036854775807) (hb : 1 ≤ b) :
     ∃ r : Int, Lib.floorRoot a b = some (.ok r) ∧ 0 ≤ r ∧ r ^ b.toNat ≤ a ∧ a < (r + 1) ^ b.toNat := by
-  unfold Lib.floorRoot Lib.range
+  unfold Lib.floorRoot Lib.rangeGuard
   have h1 : fits 1 = true := by decide
   have h2 : fits (a + 1) = true := by rw [fits_iff]; omega
   rw [if_neg (by omega)]
